@@ -2,6 +2,8 @@ package props
 
 import (
 	"encoding/json"
+	"fmt"
+	"runtime/debug"
 
 	"verif/internal/fw"
 	"verif/internal/gen"
@@ -13,6 +15,7 @@ type c12Case struct {
 	Text    string      `json:"text"`
 	Req     *sl.Req     `json:"req"`
 	Reps    int         `json:"reps"`
+	GC      bool        `json:"gc,omitempty"` // run under SetGCPercent(1)
 }
 
 func c12Judge(w *fw.W, c *c12Case) bool {
@@ -38,6 +41,11 @@ func c12Judge(w *fw.W, c *c12Case) bool {
 		return true
 	}
 	opts := sl.CompareOpts{Evaluated: true, TX: true}
+	if c.GC {
+		old := debug.SetGCPercent(1)
+		defer debug.SetGCPercent(old)
+		w.Count("gc_pressure_cases", 1)
+	}
 	h0, p0, m0 := sl.TCacheHits, sl.TCachePrefixHits, sl.TCacheMisses
 	for i := 0; i < c.Reps; i++ {
 		w.Trace(c)
@@ -85,12 +93,31 @@ func c12Judge(w *fw.W, c *c12Case) bool {
 	return true
 }
 
+// c12GCCase: a long phase of chained rules whose links look at MATCHED_VAR_NAME (a fresh string per match) through a
+// shared transformation, executed under heavy garbage collection: a cache entry must never outlive the value it
+// was computed from in a way that lets a new value at the same address pick it up.
+func c12GCCase(r gen.R) *c12Case {
+	p := &sl.Program{Engine: "On"}
+	req := &sl.Req{Method: "GET", Path: "/gc", Status: 200}
+	n := 250 + r.IntN(100)
+	phase := 1 + r.IntN(2)
+	for i := 0; i < n; i++ {
+		name := fmt.Sprintf("Param_%d", i)
+		req.Get = append(req.Get, sl.KV{K: name, V: "v"})
+		link := &sl.Rule{Phase: phase, Severity: -1, Targets: []sl.Sel{{Var: gen.Pick(r, []string{"MATCHED_VAR_NAME", "MATCHED_VARS_NAMES"})}}, Trans: []string{"lowercase"},
+			Op: &sl.Op{Name: "verifrec", Arg: fmt.Sprintf("g%d eq:args_get:param_%d", i, i)}}
+		p.Items = append(p.Items, sl.Item{Rule: &sl.Rule{ID: 1000 + i, Phase: phase, Severity: -1, Targets: []sl.Sel{{Var: "ARGS_GET", Kind: 1, Key: name}},
+			Op: &sl.Op{Name: "streq", Arg: "v"}, Chain: link}})
+	}
+	return &c12Case{Program: p, Text: p.Render(), Req: req, Reps: 4, GC: true}
+}
+
 func init() {
 	fw.Register(&fw.Prop{
 		ID: "C12", Level: "exploration",
-		Rule: "sequences of 4-10 rules of one phase drawn from a small family of transformation lists with shared prefixes, over the same and different targets (ARGS family, headers, counts, TX, and chain links over MATCHED_VAR / MATCHED_VARS(_NAMES) whose content changes during the phase), run against requests with few names, many repeats and values differing only by case or white space, each pair repeated so that map iteration order varies. Oracle: the values presented to a recording operator, fired rules and match data equal the reference interpreter's (own transformation list applied to the current content of the target); on a difference the same rule set with a distinct identity transformation in front of every list (no cache entry can be shared) decides whether sharing is the cause. Non-trivial: the transformation cache reported at least one hit or prefix hit during the case (hook events); distinct by (rule-set text, request).",
+		Rule: "sequences of 4-10 rules of one phase drawn from a small family of transformation lists with shared prefixes, over the same and different targets (ARGS family, headers, counts, TX, and chain links over MATCHED_VAR / MATCHED_VARS(_NAMES) whose content changes during the phase), run against requests with few names, many repeats and values differing only by case or white space, each pair repeated so that map iteration order varies; plus long phases (250-350 chained rules over MATCHED_VAR_NAME) executed under SetGCPercent(1), so that freed string addresses are reused within a phase. Oracle: the values presented to a recording operator, fired rules and match data equal the reference interpreter's (own transformation list applied to the current content of the target); on a difference the same rule set with a distinct identity transformation in front of every list (no cache entry can be shared) decides whether sharing is the cause. Non-trivial: the transformation cache reported at least one hit or prefix hit during the case (hook events); distinct by (rule-set text, request).",
 		Assumptions: []string{"reference interpreter as in C01", "TCacheHit/TCachePrefixHit/TCacheMiss hook events only feed the evidence; the verdict uses operator inputs and match data"},
-		Required:    []string{"tcache_hits", "tcache_prefix_hits", "cases_with_hit", "changing_target:MATCHED_VAR", "changing_target:MATCHED_VARS"},
+		Required:    []string{"gc_pressure_cases", "tcache_hits", "tcache_prefix_hits", "cases_with_hit", "changing_target:MATCHED_VAR", "changing_target:MATCHED_VARS"},
 		Plan: func(tier fw.Tier, seed int64) []fw.Batch {
 			n := 16
 			if tier == fw.Thorough {
@@ -106,6 +133,13 @@ func init() {
 			progs, reqs, reps := 150, 8, 8
 			if w.Tier == fw.Thorough {
 				progs, reqs, reps = 1500, 12, 16
+			}
+			ngc := 6
+			if w.Tier == fw.Thorough {
+				ngc = 40
+			}
+			for i := 0; i < ngc; i++ {
+				c12Judge(w, c12GCCase(w.Rng))
 			}
 			for i := 0; i < progs; i++ {
 				p := gen.ShareProgram(w.Rng)
